@@ -112,14 +112,18 @@ def enumerate_all(ctx, known=None):
     crate = ctx.crate()
     fns = _decode_fns(ctx)
     new = set() if known is None else {f for f in fns if f not in known and "{closure" not in f}
+    # helpers that were inlined into every caller (zsa/inline.py) are enumerated as part of those callers at HIR
+    # level; the MIR-level enumeration (arith) and helpers that stayed calls are attributed through the call graph
+    inl = {f for f in new if (crate.hir.get(f) or {}).get("inlined_everywhere")}
     own = INV.owners(crate, fns, new)
-    g = INV.guards(crate, fns, new)
+    own_hir = {f: o for f, o in own.items() if f not in inl}
+    g = INV.guards(crate, fns, new - inl)
     for x in g:
         x["fn"] = _short(x["fn"])
-    p = INV.reattribute(INV.panics(crate, fns), own)
+    p = INV.reattribute(INV.panics(crate, fns), own_hir)
     for x in p:
         x["fn"] = _short(x["fn"])
-    l = INV.reattribute(INV.loops(crate, fns), own)
+    l = INV.reattribute(INV.loops(crate, fns), own_hir)
     l = [x for x in l if x["kind"] != "for"]
     for x in l:
         x["fn"] = _short(x["fn"])
